@@ -80,7 +80,7 @@ VERUS = [dict(
         dict(name="route_row_shift", item="partition_range_indices", find="push(row_idx as u32)", replace="push((row_idx + 1) as u32)"),
     ],
 )]
-KANI = [dict(package="datafusion-physical-plan", module="physical_plan/repartition.rs", timeout=2400, harnesses=[
+KANI = [dict(package="datafusion-physical-plan", module="physical_plan/repartition.rs", timeout=900, harnesses=[
     dict(name="c10_range_partition_id_bounded", complete=False, bound="<= 5 split points (keys 1,3,5,7,9), row keys 0..=10; compare_rows stubbed by a total pre-order on row length",
          what="Kani twin of the Verus unit on the unextracted range_partition_id: result == number of split points <= row"),
 ])]
